@@ -74,9 +74,19 @@ impl Exec<'_> {
             Err(RecvError::Unknown) => 2,
         });
         self.rec.note(|| format!("{got:?}"));
-        // probes (before the model moves)
+        // injected network faults, classified per arrival, and probes (before the model moves)
         {
             let s = &mut self.rec.stats;
+            if seen {
+                s.fault("net_duplicate_or_replayed_id");
+            } else if self.max.is_some_and(|m| id < m) {
+                s.fault("net_reordered_id");
+            } else if self.max.is_some_and(|m| id > m + 1) {
+                s.fault("net_loss_or_jump_gap");
+            }
+            if id == VARINT_MAX {
+                s.fault("net_reserved_max_id");
+            }
             if let Some(m) = self.max {
                 if id > m {
                     let d = id - m;
@@ -175,6 +185,7 @@ impl Exec<'_> {
             }
         } else {
             self.rec.stats.probe("send_stale_key_old_value_no_effect");
+            self.rec.stats.fault("stale_key_old_or_replayed_value");
         }
         self.send.update_for_stale_key(m);
         self.floor = self.floor.max(m);
